@@ -106,6 +106,10 @@ def roundtrips(schema, out, label, formats=("xml", "mediawiki", "tsv"), unmerged
                     d = os.path.join(tmp, f"{abs(hash((label, tag))) % 10 ** 8}")
                     shutil.rmtree(d, ignore_errors=True)
                     os.makedirs(d)
+                    # the location is not fresh: an earlier save of another schema is there to be replaced
+                    _earlier().save_as_dataframes(os.path.join(d, "sch.tsv"), save_merged=True)
+                    _earlier().save_as_xml(os.path.join(d, "f.xml"), save_merged=True)
+                    _earlier().save_as_mediawiki(os.path.join(d, "f.mediawiki"), save_merged=True)
                     schema.save_as_dataframes(os.path.join(d, "sch.tsv"), save_merged=merged)
                     r = load_schema(os.path.join(d, "sch.tsv"))
                     # the file forms of the two text formats (own writers: encoding, line ends) must reload alike
@@ -130,6 +134,11 @@ def roundtrips(schema, out, label, formats=("xml", "mediawiki", "tsv"), unmerged
             out.bad(f"formats-disagree:{a[0]}-{b[0]}", f"{label}: {a} vs {b}: {first_difference(got[a], got[b])}")
             break
     return got
+
+
+def _earlier():
+    """A full schema (library merged with its standard partner) that an output location held before."""
+    return hedenv.schema("score_2.0.0")
 
 
 def first_difference(s1, s2):
